@@ -106,6 +106,12 @@ pub fn exec_scenario(eng: &dyn Engine, prop: &str, sc: &Value, verbose: bool) ->
     if let Err(p) = r {
         ctx.harness_errors.push(format!("panic escaped the engine: {} at {}", p.msg, p.loc));
     }
+    // a placement loop inside a guest step that used up the whole iteration budget (4 M probes) is a
+    // hang of that step for every practical purpose: the properties that promise termination of steps
+    // (C19) and a working heap (C13) count it, whatever the step returned once the seam cut it short
+    if (prop == "C13" || prop == "C19") && ax_x86::verif::fuel_was_exhausted() {
+        ctx.dev(prop, format!("{prop}|hang|placement_loop_budget_exhausted"), "a retry loop reached during the run did not terminate within the iteration budget of the fuel seam".into());
+    }
     let pend = crate::common::PENDING_SEEN.with(|p| *p.borrow());
     if pend > 0 {
         ctx.harness_errors.push("a future returned Pending in a native build".to_string());
